@@ -7,8 +7,8 @@ import (
 // Node is one commit of a generated history. Parents index earlier nodes.
 type Node struct {
 	Parents []int `json:"p"`
-	Time    int64 `json:"t"`           // unix seconds; independent of topology
-	Table   int   `json:"tbl"`         // index into the case's table pool
+	Time    int64 `json:"t"`            // unix seconds; independent of topology
+	Table   int   `json:"tbl"`          // index into the case's table pool
 	Shallow bool  `json:"sh,omitempty"` // table (and its exclusive blocks) absent from the store
 }
 
